@@ -142,6 +142,14 @@ def r5(ctx):
     ctx.fn(task)
     send = task.calls(r'Sender<.*>::send$|Sender::<T>::send$')[0]
     hf = [c for c in task.calls() if not c.f.get('res') and c.f.get('method') in ('call', 'call_once', 'call_mut') and any(n == 'hash_fn' for _, n in backslice(task, [c.args[0]]).upvars)]
+    nested = False
+    if not hf:
+        # iterator form: the hash function is called by a closure handed to a searching adaptor over the paths of the inode group
+        inner = [cp for cp in lib.closures_of(task.path) for c in lib.body(cp).calls() if not c.f.get('res') and c.f.get('method') in ('call', 'call_once', 'call_mut')
+                 and any(n == 'hash_fn' for _, n in backslice(lib.body(cp), [c.args[0]]).upvars)]
+        ad = task.calls(r'Iterator::(find_map|find|position|any|map_while|try_for_each|try_fold)$')
+        if inner and ad:
+            hf, nested = [ad[0]], True
     if not hf:
         ctx.missing(rule, 'hash_fn invocation in the task', task.where())
         return
@@ -163,9 +171,15 @@ def r5(ctx):
                             some_t, none_t = st_, nt_
     ok = some_t is not None and task.dominates(some_t, send.bb) and (none_t is None or send.bb not in task.reachable(none_t))
     # a path of the inode that cannot be hashed does not take its siblings with it: the hash function is retried with the next path
-    retried = any(H.bb in task.reachable(x) for x in task.succs(H.bb))
-    rm = [c for c in task.calls(r'Vec<.*>::(remove|swap_remove|pop)$|Vec::<T, A>::(remove|swap_remove|pop)$|VecDeque.*::pop_front$') if H.bb in task.reachable(c.bb) and c.bb in task.reachable(H.bb)]
+    retried = nested or any(H.bb in task.reachable(x) for x in task.succs(H.bb))
+    if nested:
+        # the adaptor cannot take the failed paths out while it iterates: they have to be removed afterwards, before the files are sent
+        rm = [c for c in task.calls(r'Vec<.*>::(remove|swap_remove|drain|split_off|retain)$|Vec::<T, A>::(remove|swap_remove|drain|split_off|retain)$') if c.bb in task.reachable(H.bb) and send.bb in task.reachable(c.bb)]
+    else:
+        rm = [c for c in task.calls(r'Vec<.*>::(remove|swap_remove|pop)$|Vec::<T, A>::(remove|swap_remove|pop)$|VecDeque.*::pop_front$') if H.bb in task.reachable(c.bb) and c.bb in task.reachable(H.bb)]
     ctx.check(retried and bool(rm), rule, task.path + '|next-path-on-failure', H.where(), 'when the hashed path fails it is removed from the inode group and the next path is hashed',
+              ('the paths of an inode group are tried in turn, but the ones that failed stay in the group: they are sent on with the hash obtained through a sibling path, so a path that could not be '
+               'opened is reported as a duplicate (and its warning contradicts the report)') if (retried and nested) else
               'only the first path of an inode group (hard links; with -S a link and its target) is ever opened: if that path vanished or became unreadable after the scan, all the other paths of the file '
               'are dropped with it - silently for a vanished path - although they exist and are readable (`snap1..3/data` removed during the run: `snap4/data` and `copy/b` are not reported)')
     ctx.check(ok, rule, task.path + '|send-only-on-some', send.where(), 'files are sent only when the hash is Some', 'files can be sent without a hash / or are not sent on Some')
